@@ -75,3 +75,47 @@ fn c08_builder_trailer_empty() {
         }
     }
 }
+
+/// verify() is exactly "stored trailer == masked checksum of everything before
+/// it" on arbitrary bytes that open (version 3): no other field of the file can
+/// switch the check off or on. Both sides use the crate's checksummer (its
+/// equality with CRC-32C is the subject of the c08_crc lemmas), so the solver
+/// compares two structurally equal circuits.
+fn verify_iff_trailer<const N: usize>() {
+    use fst::raw::verif as v;
+    let buf: [u8; N] = crate::util::sym_bytes::<N>();
+    // version 3 in the header: the file carries a checksum
+    kani::assume(buf[0] == 3 && buf[1] == 0 && buf[2] == 0 && buf[3] == 0 && buf[4] == 0 && buf[5] == 0 && buf[6] == 0 && buf[7] == 0);
+    match Fst::new(&buf[..]) {
+        Ok(f) => {
+            let mut s = v::CheckSummer::new();
+            s.update(&buf[..N - 4]);
+            let stored = u32::from_le_bytes([buf[N - 4], buf[N - 3], buf[N - 2], buf[N - 1]]);
+            let want_ok = s.masked() == stored;
+            let got_ok = match f.verify() {
+                Ok(()) => true,
+                Err(e) => {
+                    core::mem::forget(e);
+                    false
+                }
+            };
+            assert!(got_ok == want_ok, "verify() does not decide by the trailing checksum alone");
+            kani::cover!(got_ok, "some input verifies");
+            kani::cover!(!got_ok, "some input does not verify");
+            core::mem::forget(f);
+        }
+        Err(e) => core::mem::forget(e),
+    }
+}
+
+#[kani::proof]
+#[kani::unwind(42)]
+fn c08_verify_iff_trailer_40() {
+    verify_iff_trailer::<40>();
+}
+
+#[kani::proof]
+#[kani::unwind(42)]
+fn c08_verify_iff_trailer_36() {
+    verify_iff_trailer::<36>();
+}
